@@ -16,6 +16,8 @@ import sys
 import time
 
 VERIF = os.path.dirname(os.path.dirname(os.path.abspath(__file__)))
+# the tree under test: /repo's working tree; VERIF_REPO lets the seeded-change runner point at a scratch worktree instead
+REPO_SRC = os.path.join(os.environ.get("VERIF_REPO", "/repo"), "src")
 PY = os.path.join(VERIF, ".venv", "bin", "python")
 
 
@@ -27,7 +29,7 @@ def ensure_env():
 
 def child_env(tier, seed):
     env = dict(os.environ)
-    env["PYTHONPATH"] = VERIF + os.pathsep + "/repo/src"
+    env["PYTHONPATH"] = VERIF + os.pathsep + REPO_SRC
     env["PYTHONHASHSEED"] = "0"
     env["VERIF_TIER"] = tier
     env["VERIF_SEED"] = str(seed)
@@ -85,7 +87,7 @@ def write_replay_script(prop, modname, cname, args, no_excl=False, tier="quick")
         f.write("#!/verif/.venv/bin/python\n"
                 "# Replays a counterexample on the real code in /repo/src (no solver involved).\n"
                 "import os, sys, json\n"
-                "sys.path[:0] = ['/verif', '/repo/src']\n"
+                "sys.path[:0] = ['/verif', os.path.join(os.environ.get('VERIF_REPO', '/repo'), 'src')]\n"
                 + ("os.environ['VERIF_NO_EXCLUSIONS'] = '1'\n" if no_excl else "")
                 + "from vf.replay import replay\n"
                 "ARGS = json.loads(%r)\n"
@@ -114,7 +116,7 @@ def main():
             i += 1
         i += 1
     seed = int(os.environ.get("VERIF_SEED", "0") or 0)
-    sys.path[:0] = [VERIF, "/repo/src"]
+    sys.path[:0] = [VERIF, REPO_SRC]
     os.environ["VERIF_TIER"] = tier
     from vf import kf
 
